@@ -8,6 +8,7 @@ import barandom
 
 class C02(PropertyCheck):
     pid = "C02"
+    source_tables = ["BIN_HEADER"]   # tables / constants regenerated from /repo's source (gen/srctables.py)
     rule = ("random contents without c-strings (several labels per address, label names equal to strings, equal names at different "
             "addresses, equal buckets at different addresses, big-endian pointer data), each built by 3 differently shuffled API "
             "histories with overwrites and deletes; the serialize image of every history must equal the canonical image computed by an "
